@@ -163,11 +163,16 @@ Proof.
   - destruct (Z.land a (bit m) =? 0); [auto | discriminate].
 Qed.
 
-Lemma of_bit_bit m : bit m <> 0 -> m <> mIDT -> of_bit (bit m) = Some m.
-Proof. destruct m; simpl; congruence. Qed.
+Lemma of_bit_bit m : bit m <> 0 -> exists x, of_bit (bit m) = Some x.
+Proof. destruct m; simpl; intro H; try congruence; eauto. Qed.
 
-Lemma bit_inj a b : bit a = bit b -> bit b <> 0 -> a <> mIDT -> b <> mIDT -> a = b.
-Proof. destruct a, b; simpl; intros; try congruence; try lia. Qed.
+(* TOKEN and IDTOKENS are two names of one bit (CAUTH_TOKEN); every other
+   non-zero bit has one name *)
+Definition alias (a b : meth) : Prop := (a = mTOK /\ b = mIDT) \/ (a = mIDT /\ b = mTOK).
+Lemma bit_inj a b : bit a = bit b -> bit b <> 0 -> ~ alias a b -> a = b.
+Proof.
+  unfold alias. destruct a, b; simpl; intros E Hn Ha; try congruence; try lia; exfalso; apply Ha; auto.
+Qed.
 
 Lemma implemented_bit m : implemented m = true -> m <> mNONE -> bit m <> 0.
 Proof. destruct m; simpl; congruence. Qed.
@@ -184,10 +189,13 @@ Lemma auth_loop_S f aok sm cms avail :
            let r := bit ms in
            match of_bit r with
            | None => cons_round (avail, r) (auth_loop f aok sm cms (Z.land avail (Z.lnot r)))
-           | Some mc =>
-               if negb (mem mc cms) then ([(avail, r)], LRejected)
-               else if meth_eqb mc ms && aok ms then ([(avail, r)], LOk ms)
-               else cons_round (avail, r) (auth_loop f aok sm cms (Z.land avail (Z.lnot (bit mc))))
+           | Some _ =>
+               match offered_under cms r with
+               | None => ([(avail, r)], LRejected)
+               | Some mc =>
+                   if aok ms && aok mc then ([(avail, r)], LOk ms)
+                   else cons_round (avail, r) (auth_loop f aok sm cms (Z.land avail (Z.lnot (bit mc))))
+               end
            end
        end.
 Proof. reflexivity. Qed.
@@ -197,7 +205,7 @@ Proof. reflexivity. Qed.
 Section Loop.
   Variable aok : meth -> bool.
   Variables sm cms : list meth.
-  Hypothesis no_idt : ~ In mIDT sm.
+  Hypothesis no_alias : ~ (In mTOK sm /\ In mIDT sm).
   Hypothesis cms_sub : forall m, In m cms -> In m sm.
   Hypothesis aok_impl : forall m, In m cms -> m <> mNONE -> aok m = implemented m.
   Variable g : meth.
@@ -213,9 +221,16 @@ Section Loop.
     intros [_ H]. apply Z.eqb_neq. intro E. subst a. rewrite sel_0 in H. discriminate.
   Qed.
 
+  Lemma same_bit_same_method x y : In x sm -> In y sm -> bit x = bit y -> bit y <> 0 -> x = y.
+  Proof.
+    intros Hx Hy Hb Hn. apply bit_inj; auto.
+    intros [[-> ->]|[-> ->]]; apply no_alias; auto.
+  Qed.
+
   (* what one iteration selects *)
   Lemma select_facts a : inv a ->
-    exists ms, srv_select sm a = Some ms /\ In ms cms /\ of_bit (bit ms) = Some ms /\ sel a ms = true
+    exists ms, srv_select sm a = Some ms /\ In ms cms /\ (exists x, of_bit (bit ms) = Some x)
+               /\ offered_under cms (bit ms) = Some ms /\ sel a ms = true
                /\ aok ms = implemented ms /\ bit ms <> 0.
   Proof.
     intros [I1 I2].
@@ -223,11 +238,13 @@ Section Loop.
     2:{ exfalso. exact (srv_select_none sm a g (cms_sub g g_in) I2 E). }
     destruct (srv_select_some _ _ _ E) as [Hin Hsel].
     destruct (I1 _ Hsel) as [m' (Hm' & Hb & Hnz)].
-    assert (ms <> mIDT) by (intro; subst; contradiction).
-    assert (m' <> mIDT) by (intro; subst; apply no_idt; auto).
-    assert (m' = ms) by (apply bit_inj; assumption). subst m'.
+    assert (m' = ms) by (apply same_bit_same_method; auto). subst m'.
     exists ms. repeat split; auto.
     - apply of_bit_bit; assumption.
+    - unfold offered_under. destruct (find (fun m => bit m =? bit ms) cms) as [x|] eqn:F.
+      + apply find_some in F as [Fx Fb]. apply Z.eqb_eq in Fb.
+        f_equal. apply same_bit_same_method; auto.
+      + exfalso. apply (find_none _ _ F) in Hm'. rewrite Z.eqb_refl in Hm'. discriminate.
     - apply aok_impl; [assumption|]. intro; subst. simpl in Hnz. congruence.
   Qed.
 
@@ -239,27 +256,29 @@ Section Loop.
   Qed.
 
   Lemma loop_ok_nopw f a : inv a -> sel a mPW = false ->
-    exists rs ms, auth_loop (S f) aok sm cms a = (rs, LOk ms) /\ In ms cms /\ aok ms = true.
+    exists rs ms, auth_loop (S f) aok sm cms a = (rs, LOk ms) /\ In ms cms /\ aok ms = true
+                  /\ offered_under cms (bit ms) = Some ms.
   Proof.
-    intros I Hpw. destruct (select_facts a I) as [ms (E & Hin & Hob & Hsel & Hok & Hnz)].
-    rewrite auth_loop_S. rewrite (inv_nonzero a I), E. cbn zeta. rewrite Hob.
-    apply mem_In in Hin as Hmem. rewrite Hmem. cbn [negb]. rewrite meth_eqb_refl. cbn [andb].
+    intros I Hpw. destruct (select_facts a I) as [ms (E & Hin & [x0 Hob] & Hoff & Hsel & Hok & Hnz)].
+    rewrite auth_loop_S. rewrite (inv_nonzero a I), E. cbn zeta. rewrite Hob, Hoff.
+    rewrite andb_diag.
     rewrite Hok. destruct (implemented ms) eqn:A.
-    - exists [(a, bit ms)], ms. apply mem_In in Hmem. auto.
+    - exists [(a, bit ms)], ms. auto.
     - exfalso. apply unimplemented_bit in A; [|assumption].
       subst ms. congruence.
   Qed.
 
   Lemma loop_ok f a : inv a ->
-    exists rs ms, auth_loop (S (S f)) aok sm cms a = (rs, LOk ms) /\ In ms cms /\ aok ms = true.
+    exists rs ms, auth_loop (S (S f)) aok sm cms a = (rs, LOk ms) /\ In ms cms /\ aok ms = true
+                  /\ offered_under cms (bit ms) = Some ms.
   Proof.
-    intros I. destruct (select_facts a I) as [ms (E & Hin & Hob & Hsel & Hok & Hnz)].
-    rewrite auth_loop_S. rewrite (inv_nonzero a I), E. cbn zeta. rewrite Hob.
-    apply mem_In in Hin as Hmem. rewrite Hmem. cbn [negb]. rewrite meth_eqb_refl. cbn [andb].
+    intros I. destruct (select_facts a I) as [ms (E & Hin & [x0 Hob] & Hoff & Hsel & Hok & Hnz)].
+    rewrite auth_loop_S. rewrite (inv_nonzero a I), E. cbn zeta. rewrite Hob, Hoff.
+    rewrite andb_diag.
     rewrite Hok. destruct (implemented ms) eqn:A.
-    - exists [(a, bit ms)], ms. apply mem_In in Hmem. auto.
+    - exists [(a, bit ms)], ms. auto.
     - apply unimplemented_bit in A; [|assumption]. subst ms.
-      destruct (loop_ok_nopw f (Z.land a (Z.lnot (bit mPW))) (inv_remove_pw a I)) as [rs [ms' (L & Hin' & A')]].
+      destruct (loop_ok_nopw f (Z.land a (Z.lnot (bit mPW))) (inv_remove_pw a I)) as [rs [ms' (L & Hin' & A' & O')]].
       { rewrite sel_remove_pw. simpl. apply andb_false_r. }
       exists ((a, bit mPW) :: rs), ms'.
       rewrite L. simpl. auto.
@@ -369,7 +388,7 @@ Section Table.
   Hypothesis HsE : In (p_enc Sv) four_levels.
   Hypothesis HcI : p_integ Cl <> Rq.
   Hypothesis HsI : p_integ Sv <> Rq.
-  Hypothesis no_idt : ~ In mIDT (p_meths Sv).
+  Hypothesis no_alias : ~ (In mTOK (p_meths Sv) /\ In mIDT (p_meths Sv)).
   Hypothesis aok_impl :
     forall m, In m (p_meths Cl) -> In m (p_meths Sv) -> m <> mNONE -> aok m = implemented m.
 
@@ -417,7 +436,8 @@ Section Table.
   Lemma loop_facts : hm = true ->
     cms <> [] /\
     exists rs ms, auth_loop (S (length cms)) aok (p_meths Sv) cms (mask cms) = (rs, LOk ms)
-                  /\ In ms (p_meths Cl) /\ In ms (p_meths Sv) /\ aok ms = true.
+                  /\ In ms (p_meths Cl) /\ In ms (p_meths Sv) /\ aok ms = true
+                  /\ offered_under cms (bit ms) = Some ms.
   Proof.
     intro H. unfold hm in H. apply has_meth_true in H.
     destruct (neg_meth_in _ _ H) as (Hs & Hc & Hi). fold m in Hs, Hc, Hi, H.
@@ -428,13 +448,13 @@ Section Table.
     destruct cms as [|c0 r0] eqn:Ecms; [contradiction|].
     assert (Hsub : forall x, In x (c0 :: r0) -> In x (p_meths Cl) /\ In x (p_meths Sv)).
     { intros x Hx. rewrite <- Ecms in Hx. unfold cms in Hx. rewrite Esm in Hx. apply cl_methods_In in Hx. exact Hx. }
-    destruct (loop_ok aok (p_meths Sv) (c0 :: r0) no_idt
+    destruct (loop_ok aok (p_meths Sv) (c0 :: r0) no_alias
                 (fun x Hx => proj2 (Hsub x Hx))
                 (fun x Hx Hn => aok_impl x (proj1 (Hsub x Hx)) (proj2 (Hsub x Hx)) Hn)
                 m Hg Hi H (length r0) (mask (c0 :: r0)))
-      as [rs [ms (L & Hin & Ha)]].
+      as [rs [ms (L & Hin & Ha & Ho)]].
     { apply inv_mask; auto. apply implemented_bit; assumption. }
-    exists rs, ms. simpl length. rewrite L. destruct (Hsub ms Hin). auto.
+    exists rs, ms. simpl length. rewrite L. destruct (Hsub ms Hin). auto 6.
   Qed.
 
   Theorem table_holds :
@@ -446,9 +466,10 @@ Section Table.
     set (lo := match snd lp with LOk _ => true | _ => false end).
     pose proof (row_ok_holds (p_auth Cl) (p_auth Sv) (p_enc Cl) (p_enc Sv) hm hk cn lo HcA HsA HcE HsE) as R.
     assert (Hprem : hm = true -> cn = false /\ lo = true /\
-                    exists ms, snd lp = LOk ms /\ In ms (p_meths Cl) /\ In ms (p_meths Sv) /\ aok ms = true).
-    { intro H. destruct (loop_facts H) as [Hne [rs [ms (L & A & B & D)]]].
-      unfold cn, lo, lp. rewrite L. simpl. destruct cms; [congruence|]. eauto 8. }
+                    exists ms, snd lp = LOk ms /\ In ms (p_meths Cl) /\ In ms (p_meths Sv) /\ aok ms = true
+                               /\ offered_under cms (bit ms) = Some ms).
+    { intro H. destruct (loop_facts H) as [Hne [rs [ms (L & A & B & D & O)]]].
+      unfold cn, lo, lp. rewrite L. simpl. destruct cms; [congruence|]. eauto 10. }
     unfold row_ok in R.
     destruct (hm && (cn || negb lo)) eqn:Eprem.
     { apply andb_true_iff in Eprem as [H1 H2]. destruct (Hprem H1) as (A & B & _).
@@ -462,7 +483,9 @@ Section Table.
                      then match snd lp with LOk x => Some x | _ => None end else None in
           HOk (mkOk (if consulted (p_auth Cl) (p_auth Sv) (p_enc Cl) (p_enc Sv) hm hk hm hk cn then fst lp else [])
                  ran ca sa ce se
-                 (match ran with Some x => x | None => m end)
+                 (match ran with
+                  | Some x => match offered_under cms (bit x) with Some mc => mc | None => x end
+                  | None => m end)
                  (match ran with Some x => x | None => m end)
                  ce se
                  (if ce then Some (KDH (p_pub Cl) (p_pub Sv)) else None)
@@ -489,7 +512,8 @@ Section Table.
       + intro E. apply auth_runs_iff. congruence.
       + intro E. apply auth_runs_iff in E. congruence.
       + intro E. rewrite E in *. match goal with H : implb true _ = true |- _ => simpl in H; apply andb_true_iff in H as [Hh _] end.
-        destruct (Hprem Hh) as (_ & _ & ms & Hl & A & B & D). rewrite Hl. exists ms. auto 8.
+        destruct (Hprem Hh) as (_ & _ & ms & Hl & A & B & D & O). rewrite Hl. exists ms.
+        cbn beta iota. rewrite O. auto 8.
       + intro E. rewrite E. reflexivity.
       + intro E. apply Req_b in E. match goal with H : implb (is_rq (p_enc Cl) || is_rq (p_enc Sv)) hk = true |- _ => rewrite E in H; simpl in H; exact H end.
       + intro E. rewrite E. discriminate.
@@ -604,10 +628,12 @@ Proof.
   { unfold sel in Hs. intro Z0. rewrite Z0, Z.land_0_r in Hs. discriminate. }
   destruct (of_bit_some ms Hb) as [mc (Eo & Eb & Hin)].
   cbv zeta. rewrite Eo.
-  destruct (negb (mem mc cms)); [simpl; discriminate|].
-  destruct (meth_eqb mc ms && aok ms); [simpl; discriminate|].
+  destruct (offered_under cms (bit ms)) as [mo|] eqn:Eoff; [|simpl; discriminate].
+  destruct (aok ms && aok mo); [simpl; discriminate|].
   unfold cons_round. simpl snd. apply IH.
+  unfold offered_under in Eoff. apply find_some in Eoff as [_ Ebo]. apply Z.eqb_eq in Ebo.
   assert (Hsel : sel a mc = true) by (rewrite (sel_same_bit a ms mc Eb); exact Hs).
+  replace (bit mo) with (bit mc) by congruence.
   pose proof (cnt_remove a mc Hin Hsel). lia.
 Qed.
 
